@@ -20,13 +20,17 @@ Proof. exact eval_zone_sound. Qed.
 Print Assumptions C20_zone_statistics_sound.
 
 (* for all tables (values over Z + NaN + NULL), all zone sizes >= 1 and all queries: a row that matches lies in a
-   selected zone, i.e. its address is in the AtMost answer of ZoneMapIndex::search *)
-Theorem C20_zonemap_superset : forall (size : nat) (frags : list (N * list (option fval))) (q : zquery)
+   selected zone, i.e. its address is in the AtMost answer of ZoneMapIndex::search.
+   PARTIAL: [build_zonemap] is the builder as documented (zones cut per fragment, addresses = offsets); the
+   batch-by-batch fragment walk of ZoneMapIndexBuilder::train is NOT transcribed.  The real walk deviates from it on
+   two reproduced classes (KNOWN_FINDINGS: zonemap_zone_spans_fragments, zonemap_rows_not_contiguous), where rows
+   end up in no zone; the statistics / evaluation / search part (C20_zone_statistics_sound) is complete. *)
+Theorem C20_zonemap_superset_partial : forall (size : nat) (frags : list (N * list (option fval))) (q : zquery)
     (f : N) (vals : list (option fval)) (i : nat) (v : option fval),
   (0 < size)%nat -> In (f, vals) frags -> nth_error vals i = Some v -> zmatch q v = true ->
   In (f * two32N + N.of_nat i) (zm_search (build_zonemap size frags) q).
 Proof. exact zonemap_superset. Qed.
-Print Assumptions C20_zonemap_superset.
+Print Assumptions C20_zonemap_superset_partial.
 
 (* the block a hash selects always exists: ((h >> 32) * n) >> 32 < n *)
 Theorem C20_bloom_block_index_in_bounds : forall n h : N, 0 < n -> h < two64 -> block_index n h < n.
